@@ -46,6 +46,9 @@ def run(tier, replay=None):
                     files = {"main.s": "\n".join(ls[:a] + ['.include "inc.s"'] + ls[b + 1:]) + "\n", "inc.s": "\n".join(ls[a:b + 1]) + "\n"}
                     cut_inputs.append(files)
                     hc.append({"id": len(hc) + 1, "mode": "runs", "files": files, "base": "main.s", "repeat": R})
+    for files in corpus.TWIN_FILES:
+        cut_inputs.append(files)
+        hc.append({"id": len(hc) + 1, "mode": "runs", "files": files, "base": "main.s", "repeat": R})
     tp, evs = run_harness(rvh, hc, wd, "runs", timeout_ms=60000)
     evs = [e if e["ev"] == "runs" else {"ev": "skip", "id": e["id"]} for e in evs]
     # separate processes, every output mode
